@@ -69,6 +69,12 @@ def Pfe.pack (f : Pfe) : Py Bytes := do
 
 def Pfe.len (f : Pfe) : Py Nat := checkPfc f.pfc
 
+/-- `PacketFieldEnum.with_byte_size(num_bytes, val)` -/
+def Pfe.withByteSize (n val : Nat) : Py Pfe := Pfe.new (n * 8) val
+
+/-- `PacketFieldEnum.__eq__` -/
+def Pfe.beq (a b : Pfe) : Bool := a.pfc == b.pfc && a.val == b.val
+
 /-- `PacketFieldEnum.unpack(data, pfc)` -/
 def Pfe.unpack (d : Bytes) (pfc : Nat) : Py Pfe := do
   let n ← checkPfc pfc
@@ -85,14 +91,22 @@ def FailureNotice.pack (f : FailureNotice) : Py Bytes := do
   let c ← f.code.pack
   pure (c ++ f.data)
 
+/-- `FailureNotice.__eq__` (by value: error code field and failure data) -/
+def FailureNotice.beq (a b : FailureNotice) : Bool := a.code.beq b.code && decide (a.data = b.data)
+
 def FailureNotice.len (f : FailureNotice) : Py Nat := do
   let c ← f.code.len
   pure (c + f.data.length)
 
-/-- `FailureNotice.unpack(data, num_bytes_err_code, num_bytes_data)` -/
-def FailureNotice.unpack (d : Bytes) (nErr : Nat) (nData : Nat) : Py FailureNotice := do
+/-- `FailureNotice.unpack(data, num_bytes_err_code, num_bytes_data=None)`; `None` means "all the
+    remaining octets" (`len(data) - num_bytes_err_code`; when that is negative the field decoder has
+    already refused). Negative explicit lengths are outside the model. -/
+def FailureNotice.unpack (d : Bytes) (nErr : Nat) (nData : Option Nat) : Py FailureNotice := do
   let code ← Pfe.unpack d (nErr * 8)
-  pure ⟨code, slice d nErr (nErr + nData)⟩
+  let n := match nData with
+    | none => d.length - nErr
+    | some n => n
+  pure ⟨code, slice d nErr (nErr + n)⟩
 
 /-- `VerificationParams(req_id, step_id, failure_notice)` -/
 structure VParams where
@@ -166,10 +180,10 @@ def unpackRaw (tm : Tm) (stepBytes errBytes : Nat) : Py S1Tm := do
     if sub = 6 then
       let step ← Pfe.unpack (data.drop 4) (stepBytes * 8)
       let idx := 4 + stepBytes
-      let fn ← FailureNotice.unpack (data.drop idx) errBytes (data.length - idx)
+      let fn ← FailureNotice.unpack (data.drop idx) errBytes (some (data.length - idx))
       pure ⟨tm, ⟨req, some step, some fn⟩⟩
     else
-      let fn ← FailureNotice.unpack (data.drop 4) errBytes (data.length - 4)
+      let fn ← FailureNotice.unpack (data.drop 4) errBytes (some (data.length - 4))
       pure ⟨tm, ⟨req, none, some fn⟩⟩
   else
     if sub = 5 then
@@ -183,12 +197,54 @@ def S1Tm.unpack (d : Bytes) (tsLen stepBytes errBytes : Nat) : Py S1Tm := do
   let tm ← Tm.unpack d tsLen
   unpackRaw tm stepBytes errBytes
 
-def optEq {α} [DecidableEq α] (a b : Option α) : Bool := decide (a = b)
+/-- `Service1Tm.from_tm(tm, params)` -/
+def S1Tm.fromTm (tm : Tm) (stepBytes errBytes : Nat) : Py S1Tm := unpackRaw tm stepBytes errBytes
 
-/-- `Service1Tm.__eq__`: the PusTm parts are equal and the verification parameters are equal
-    (request ids by their 32-bit value) -/
-def S1Tm.beq (a b : S1Tm) : Bool :=
-  a.tm.beq b.tm && a.params.reqId.beq b.params.reqId && optEq a.params.stepId b.params.stepId
-    && optEq a.params.failure b.params.failure
+/-- `==` on two optional fields as the dataclass `__eq__` of `VerificationParams` evaluates it for
+    values of the same shape (`None == None`, or the field's own `__eq__`) -/
+def optBeq {α} (f : α → α → Bool) : Option α → Option α → Bool
+  | none, none => true
+  | some a, some b => f a b
+  | _, _ => false
+
+/-- `VerificationParams.__eq__` (dataclass: request ids by their 32-bit value, step id and failure
+    notice by value) -/
+def VParams.beq (a b : VParams) : Bool :=
+  a.reqId.beq b.reqId && optBeq Pfe.beq a.stepId b.stepId && optBeq FailureNotice.beq a.failure b.failure
+
+/-- `Service1Tm.__eq__`: the PusTm parts are equal and the verification parameters are equal -/
+def S1Tm.beq (a b : S1Tm) : Bool := a.tm.beq b.tm && a.params.beq b.params
+
+/-- `Service1Tm.tc_req_id`, `.step_id`, `.failure_notice`, `.has_failure_notice`, `.is_step_reply` -/
+def S1Tm.tcReqId (s : S1Tm) : ReqId := s.params.reqId
+def S1Tm.stepId (s : S1Tm) : Option Pfe := s.params.stepId
+def S1Tm.failureNotice (s : S1Tm) : Option FailureNotice := s.params.failure
+def S1Tm.hasFailureNotice (s : S1Tm) : Bool := s.tm.sec.subservice % 2 == 0
+def S1Tm.isStepReply (s : S1Tm) : Bool := s.tm.sec.subservice == 6 || s.tm.sec.subservice == 5
+/-- `Service1Tm.error_code` (contains an `assert`: an even subservice without failure notice, which
+    only a report built without verification parameters can have, raises AssertionError) -/
+def S1Tm.errorCode (s : S1Tm) : Py (Option Pfe) :=
+  if s.hasFailureNotice then
+    match s.params.failure with
+    | none => .error .assertion
+    | some f => .ok (some f.code)
+  else .ok none
+
+/-- the eight `create_*_tm(apid, pus_tc, [step_id], [failure_notice], timestamp)` helpers: a report
+    of the given subservice for the telecommand with space packet header `tc` (sequence count,
+    packet version, time reference and destination id take their defaults 0) -/
+def create (sub : Nat) (apid : Int) (tc : Sph) (step : Option Pfe) (fn : Option FailureNotice)
+    (ts : Bytes) : Py S1Tm :=
+  S1Tm.new apid (sub : Int) ts (some ⟨ReqId.fromSph tc, step, fn⟩) 0 0 0 0
+
+def createAcceptanceSuccess (apid : Int) (tc : Sph) (ts : Bytes) := create 1 apid tc none none ts
+def createAcceptanceFailure (apid : Int) (tc : Sph) (fn : FailureNotice) (ts : Bytes) := create 2 apid tc none (some fn) ts
+def createStartSuccess (apid : Int) (tc : Sph) (ts : Bytes) := create 3 apid tc none none ts
+def createStartFailure (apid : Int) (tc : Sph) (fn : FailureNotice) (ts : Bytes) := create 4 apid tc none (some fn) ts
+def createStepSuccess (apid : Int) (tc : Sph) (step : Pfe) (ts : Bytes) := create 5 apid tc (some step) none ts
+def createStepFailure (apid : Int) (tc : Sph) (step : Pfe) (fn : FailureNotice) (ts : Bytes) :=
+  create 6 apid tc (some step) (some fn) ts
+def createCompletionSuccess (apid : Int) (tc : Sph) (ts : Bytes) := create 7 apid tc none none ts
+def createCompletionFailure (apid : Int) (tc : Sph) (fn : FailureNotice) (ts : Bytes) := create 8 apid tc none (some fn) ts
 
 end SpVerif.Srv1
